@@ -534,7 +534,7 @@ func TestC02(t *testing.T) {
 					c.Queue = 8 // no refusals here
 				}
 				size := rapid.SampledFrom([]int{1, 1023, 1024, 1025, 2048, 3000, 4096}).Draw(t, "rfsize")
-				c.Tasks[0].Ops = append(c.Tasks[0].Ops[:imin(1, len(c.Tasks[0].Ops))], E1Op{Op: "readfrom", Sizes: []int{size}, N: rapid.SampledFrom([]int{700, 1024, 4096}).Draw(t, "rfstep")})
+				c.Tasks[0].Ops = append(c.Tasks[0].Ops[:imin(1, len(c.Tasks[0].Ops))], E1Op{Op: "readfrom", Sizes: []int{size}, N: rapid.SampledFrom([]int{700, 1024, 4096}).Draw(t, "rfstep"), EOFData: rapid.Bool().Draw(t, "rfeofdata")})
 				c.Buffered = true
 			}
 			return c
@@ -580,7 +580,7 @@ func TestC10(t *testing.T) {
 				}
 				ops := c.Tasks[0].Ops
 				at := rapid.IntRange(0, len(ops)).Draw(t, "rfat")
-				rf := E1Op{Op: "readfrom", Sizes: []int{rfSize}, N: rfStep, Poison: true, Empty: rapid.IntRange(0, 2).Draw(t, "rfempty") == 0}
+				rf := E1Op{Op: "readfrom", Sizes: []int{rfSize}, N: rfStep, Poison: true, Empty: rapid.IntRange(0, 2).Draw(t, "rfempty") == 0, EOFData: rapid.Bool().Draw(t, "rfeofdata")}
 				c.Tasks[0].Ops = append(append(append([]E1Op{}, ops[:at]...), rf), ops[at:]...)
 				// a few small writes afterwards: they draw from the pool class ReadFrom uses
 				for k := rapid.IntRange(0, 3).Draw(t, "rftail"); k > 0; k-- {
